@@ -1396,3 +1396,16 @@ V("rf-c10-worklist-index-loop", "C10", "silent", UT, _C10_WL, "    for k in rang
 V("rf-c10-worklist-for", "C10", "silent", UT, _C10_WL, "    for (x, y) in reversed(directed_edges):\n", what="for-loop over the reversed list")
 V("rf-c10-worklist-skip-last", "C10", "fire", UT, _C10_WL, "    for k in range(len(directed_edges) - 1):\n        (x, y) = directed_edges[k]\n", rule="DEPENDS.empty-I", what="index loop leaves out the last edge", accept_inconclusive=True)
 V("rf-c10-worklist-same-edge", "C10", "fire", UT, _C10_WL, "    for k in range(len(directed_edges)):\n        (x, y) = directed_edges[0]\n", rule="ORIENT.clear", what="always the first edge")
+
+# ------------------------------------------------------------------------------- C07 / C10 refactor-round-2 forms
+_C07_OR = "        oriented_edges[flipped, :] = undirected_edges[:, [1, 0]][flipped]\n        oriented_edges[flipped == False, :] = undirected_edges[:, [0, 1]][flipped == False]\n"
+V("rf-c07-orient-where", "C07", "silent", UT, _C07_OR, "        oriented_edges = np.where(flipped[:, np.newaxis], undirected_edges[:, [1, 0]], undirected_edges)\n", what="np.where instead of two masked stores")
+V("rf-c07-orient-where-same", "C07", "fire", UT, _C07_OR, "        oriented_edges = np.where(flipped[:, np.newaxis], undirected_edges, undirected_edges)\n", rule="ORIENTATIONS.both-ways", what="np.where with the same orientation on both sides")
+_C10_CF1 = "    IMEC = []\n    I = list(I)\n    for me in MEC:\n"
+_C10_CF2 = "        if (me[:, I] == A[:, I]).all():\n            IMEC.append(me)\n    return np.array(IMEC)\n"
+V("rf-c10-chain-filter-mask", "C10", "silent", UT, _C10_CF1, "    I = list(I)\n    keep = np.zeros(len(MEC), dtype=bool)\n    for k, me in enumerate(MEC):\n",
+  more=[(UT, _C10_CF2, "        keep[k] = (me[:, I] == A[:, I]).all()\n    return MEC[keep]\n")], what="boolean mask instead of a list of kept members")
+V("rf-c10-chain-filter-mask-rows", "C10", "fire", UT, _C10_CF1, "    I = list(I)\n    keep = np.zeros(len(MEC), dtype=bool)\n    for k, me in enumerate(MEC):\n",
+  more=[(UT, _C10_CF2, "        keep[k] = (me[I, :] == A[I, :]).all()\n    return MEC[keep]\n")], rule="COLUMNS.chain-filter", what="mask form comparing rows (children) instead of columns (parents)")
+V("rf-c10-chain-filter-mask-negated", "C10", "fire", UT, _C10_CF1, "    I = list(I)\n    keep = np.zeros(len(MEC), dtype=bool)\n    for k, me in enumerate(MEC):\n",
+  more=[(UT, _C10_CF2, "        keep[k] = (me[:, I] == A[:, I]).all()\n    return MEC[~keep]\n")], rule="COLUMNS.chain-filter", what="mask form returning the complement")
